@@ -46,8 +46,33 @@ pub async fn cmd_export(orm: OrmArg, export_dir: Option<PathBuf>) -> Result<()> 
 
     let target_root = resolve_export_dir(export_dir, &config);
 
-    // Clean the export directory before regenerating
     let orm_kind: Orm = orm.into();
+
+    // Every model needs an output file of its own: refuse (before anything is touched) when two model
+    // files map to one output path, or when an entity would be written over the module index mod.rs.
+    let mut claimed: std::collections::HashMap<PathBuf, &Path> = std::collections::HashMap::new();
+    for (_, rel_path) in &normalized_models {
+        let out_path = build_output_path(&target_root, rel_path, orm_kind);
+        if matches!(orm_kind, Orm::SeaOrm)
+            && out_path.file_name().and_then(|n| n.to_str()) == Some("mod.rs")
+        {
+            anyhow::bail!(
+                "model file {} would be exported to {}, which is the module index; rename the model file",
+                rel_path.display(),
+                out_path.display()
+            );
+        }
+        if let Some(previous) = claimed.insert(out_path.clone(), rel_path.as_path()) {
+            anyhow::bail!(
+                "model files {} and {} would both be exported to {}; rename one of them",
+                previous.display(),
+                rel_path.display(),
+                out_path.display()
+            );
+        }
+    }
+
+    // Clean the export directory before regenerating
     clean_export_dir(&target_root, orm_kind).await?;
 
     if !target_root.exists() {
